@@ -15,8 +15,8 @@ from the checker.  python ast of /repo/lib/**/*.py  ->  coq/Generated/RaiseSites
      whether every call of that checker function inside the checker is so enclosed (CaughtByCaller), or the reviewed
      whitelist (Reviewed), or Uncaught.  Module-level code of lib modules gives ImportTime rows.
 
-Fail-closed: an unknown syntactic shape, a lib file in neither list, a stale whitelist / dead-raise entry, a missing
-anchor raise SystemExit (broken tie); a raise whose class cannot be determined is Unclassified and caught by nothing;
+Fail-closed: an unknown syntactic shape, a lib file in neither list, a stale dead-raise / override entry, a missing
+anchor raise SystemExit (broken tie); a stale whitelist entry becomes an Uncaught row; a raise whose class cannot be determined is Unclassified and caught by nothing;
 anything else that finds no handler is Uncaught.  The Coq theorem C01_every_own_error_is_caught rejects both.
 This file is part of the trusted base; notes/C01.md says what the table does NOT establish."""
 import ast
@@ -235,7 +235,7 @@ class ClassInfo:
         self.mod, self.node, self.name = mod, node, node.name
         self.methods = {}
         self.key = '%s:%s' % (mod.rel, node.name)
-        self.bases = []        # class keys, filled by link()
+        self.bases = []        # class keys, filled by load()
 
     def __repr__(self):
         return self.key
@@ -427,7 +427,8 @@ def lookup_method(cls, name, after=None):
 
 
 def local_info(func):
-    """(parameters and otherwise-bound names, {name: [assigned values]}) of the function's own body"""
+    """(parameters and otherwise-bound names, {name: [assigned values]}) of the function's own body
+    (imports inside functions are in Mod.imports)"""
     if func._locals is None:
         bound, assigns = set(), {}
         node = func.node
@@ -449,8 +450,6 @@ def local_info(func):
                     bound.update(x.id for x in ast.walk(n.optional_vars) if isinstance(x, ast.Name))
                 elif isinstance(n, ast.ExceptHandler) and n.name:
                     bound.add(n.name)
-                elif isinstance(n, (ast.Import, ast.ImportFrom)):
-                    pass     # imports inside functions are in Mod.imports
         func._locals = (bound, assigns)
     return func._locals
 
@@ -582,7 +581,7 @@ def implicit(rel, func_expr, call=None):
 SEEN_IMPLICIT = set()
 
 
-def targets_of_name(name, scope, seen=None):
+def targets_of_name(name, scope):
     """what calling the plain name may invoke"""
     f = scope.func
     while f is not None and f.qual != '<module>':
@@ -607,7 +606,7 @@ def targets_of_name(name, scope, seen=None):
                 out += targets_of_value(v, Scope(f, scope.selfclass, scope.world))
             return out
         f = f.parent
-    return targets_of_module_name(name, scope.mod, seen or set())
+    return targets_of_module_name(name, scope.mod, set())
 
 
 def targets_of_module_name(name, mod, seen, use_builtins=True):
@@ -1252,9 +1251,10 @@ def main(emit):
     for rel, src in IMPLICIT_ANCHORS:
         if (rel, src) not in SEEN_IMPLICIT:
             raise SystemExit('gen_raisesites: implicit raiser %r no longer found in %s: review IMPLICIT' % (src, rel))
-    stale = [k for k in list(WHITELIST) + list(KNOWN_DEFECTS) if k not in USED_WHITELIST]
-    if stale:
-        raise SystemExit('gen_raisesites: stale WHITELIST entries (no such uncaught row): %r' % stale)
+    for k in list(WHITELIST) + list(KNOWN_DEFECTS):
+        if k not in USED_WHITELIST:        # a stale entry fails the theorem too, next to whatever else the change uncovered
+            table.append({'file': k[0], 'line': 0, 'func': k[1], 'callee': k[2], 'class': k[3], 'origin': 'tools/gen/gen_raisesites.py',
+                          'disp': ('Uncaught', 'stale WHITELIST / KNOWN_DEFECTS entry of the generator: there is no such uncaught row any more; review it')})
     stale = [k for k in CALLEE_OVERRIDES if k not in USED_OVERRIDES]
     if stale:
         raise SystemExit('gen_raisesites: stale CALLEE_OVERRIDES entries: %r' % stale)
